@@ -275,6 +275,12 @@ func (d *Decoder) readMap(dest reflect.Value) error {
 		}
 	case _mapUntypedTag:
 		//do nothing
+	case _objectDefTag:
+		// value ::= class-def value
+		if err := d.readObjectDef(); err != nil {
+			return err
+		}
+		return d.readMap(dest)
 	default:
 		return newCodecError("readMap", "error map tag: 0x%x", tag)
 	}
